@@ -11,6 +11,10 @@
 // shuffles, traces only) | 1 ASLR off (personality ADDR_NO_RANDOMIZE) + LD_PRELOAD malloc shim (seeded padding/holes)
 // | 2 shim with another seed + glibc malloc tunables (MALLOC_TOP_PAD_, MALLOC_MMAP_THRESHOLD_, MALLOC_PERTURB_)
 // | 3 operator-new arena: small objects in descending address order, second build seeded mix | 4.. seeded combinations.
+// In every layout but the reference construction, seeded dummy allocations are also made *between construction steps* of the
+// design (perturbStep), so that nodes created within one design change their relative address order.
+// Design families: gen (harness/designgen.h recipes, optional areas/partitions) | fsm (heap-allocated state objects) |
+// ret (register / memory read port enabled by a 2..4-term conjunction that post-processing rebuilds with Conjunction::build).
 #include <gatery/pch.h>
 #include "c10_alloc.h"
 #include "designgen.h"
@@ -42,13 +46,14 @@ namespace fs = std::filesystem;
 // case generation (pure function of seed, case index, nsteps — parent and children regenerate the same case)
 
 struct CaseSpec {
-	std::string family;          // gen | fsm
+	std::string family;          // gen | fsm | ret
 	vh::Recipe recipe;
 	vh::Decoration deco;
 	uint64_t partSeed = 0;
 	bool perPartition = false, tb = false, undef = false;
 	uint64_t stimSeed = 0, fsmSeed = 0;
 	size_t ncycles = 8, fsmStates = 3;
+	uint64_t retSeed = 0;        // family ret: conjunction-enabled registers that retiming / memory detection rebuild
 	unsigned tool = 0;           // 0 default synthesis tool, 1 GHDL, 2 IntelQuartus, 3 XilinxVivado (project / file-list writers)
 
 	std::string cfg() const {
@@ -56,6 +61,7 @@ struct CaseSpec {
 		o << "family=" << family << " export=" << (perPartition ? "file_per_partition" : "single_file") << " tb=" << tb << " areas=" << deco.areas
 		  << " names=" << deco.names << " tool=" << tool << " partSeed=" << partSeed << " ncycles=" << ncycles;
 		if (family == "fsm") o << " fsmStates=" << fsmStates << " fsmSeed=" << fsmSeed;
+		if (family == "ret") o << " retSeed=" << retSeed;
 		return o.str();
 	}
 };
@@ -72,6 +78,12 @@ static CaseSpec genCase(uint64_t seed, uint64_t k, uint64_t nsteps) {
 	s.perPartition = rng.chance(1, 2);
 	s.partSeed = rng.next();
 	s.tool = (unsigned) rng.below(4);
+	if (k % 4 == 2) { // every fourth case (chosen by index so that the random stream of the other families is unchanged)
+		s.family = "ret";
+		s.retSeed = Rng(seed * 0x9E3779B97F4A7C15ull + k * 7919 + 1).next();
+		s.perPartition = false;
+		return s;
+	}
 	if (s.family == "fsm") {
 		s.fsmSeed = rng.next();
 		s.fsmStates = 3 + rng.below(4);
@@ -140,6 +152,94 @@ static vh::Built buildFsm(const CaseSpec &s, FsmHolder &h) {
 	return b;
 }
 
+// ---- unrelated allocations *between construction steps* of one design (seed set per build by the child; 0 = none)
+static uint64_t g_perturbSeed = 0;
+static std::vector<void*> g_perturbHeld;
+static void perturbStep() {
+	if (!g_perturbSeed) return;
+	Rng r(g_perturbSeed); g_perturbSeed = r.next() | 1;
+	size_t n = r.below(6);
+	for (size_t i = 0; i < n; i++) {
+		size_t sz = 16 + r.below(r.chance(1, 4) ? 4000 : 700);
+		g_perturbHeld.push_back(r.chance(1, 2) ? std::malloc(sz) : ::operator new(sz));
+	}
+	// free a few of the malloc'ed ones is not possible without knowing the allocator; instead release whole std::strings / vectors
+	std::vector<std::string> tmp;
+	for (size_t i = 0, m = r.below(8); i < m; i++) tmp.emplace_back(24 + r.below(900), 'y');
+	if (r.chance(1, 2)) { auto *keep = new std::vector<std::string>(); for (size_t i = 0; i < tmp.size(); i += 2) keep->push_back(std::move(tmp[i])); g_perturbHeld.push_back(keep); }
+}
+
+// Family "ret": a register (or memory read port register) enabled by a conjunction of >= 2 (possibly negated) terms, in a shape that
+// post-processing *rebuilds* (Conjunction::build): backward retiming of the register into a memory read port, forward retiming of
+// movable registers pulled by pipestage hints, negative registers. The condition is built from nested ENIF/IF scopes and `&`.
+static vh::Built buildRet(const CaseSpec &s) {
+	vh::Built b;
+	Rng r(s.retSeed);
+	b.clock.emplace(ClockConfig{.absoluteFrequency = 100'000'000, .name = "clk", .resetType = ClockConfig::ResetType::NONE,
+		.memoryResetType = ClockConfig::ResetType::NONE, .initializeRegs = true});
+	ClockScope clkScope(*b.clock);
+	unsigned kind = (unsigned) r.below(4);           // 0 memory read port, 1 pipestage over movable registers, 2 negative register, 3 memory + nested scopes
+	size_t nt = 2 + r.below(3);                      // terms of the conjunction
+	size_t w = 2 + r.below(5), aw = 2 + r.below(2);
+	std::vector<Bit> term;
+	auto addIn = [&](auto &sig, size_t width) { b.inPins.push_back(pinOf(sig)); b.inWidths.push_back(width); };
+	for (size_t i = 0; i < nt; i++) {
+		perturbStep();
+		static const char *names[] = {"consumer_ready", "pipeline_advance", "valid", "not_stalled", "sel"};
+		term.push_back(pinIn().setName(names[i]));
+		addIn(term.back(), 0);
+	}
+	std::vector<bool> neg; std::vector<size_t> perm;
+	for (size_t i = 0; i < nt; i++) { neg.push_back(r.chance(1, 4)); perm.push_back(i); }
+	for (size_t i = nt; i > 1; i--) std::swap(perm[i - 1], perm[r.below(i)]);
+	auto lit = [&](size_t i) { perturbStep(); return neg[i] ? Bit(!term[i]) : Bit(term[i]); };
+	size_t outer = r.below(nt);                      // the first `outer` literals come from enclosing ENIF scopes, the rest from one `&` chain
+	perturbStep();
+	UInt x = pinIn(BitWidth(w)).setName("x"); addIn(x, w);
+	UInt y = pinIn(BitWidth(w)).setName("y"); addIn(y, w);
+	UInt out = BitWidth(w);
+	{
+		std::vector<std::unique_ptr<EnableScope>> scopes;
+		for (size_t i = 0; i < outer; i++) scopes.push_back(std::make_unique<EnableScope>(lit(perm[i])));
+		if (outer < nt) {
+			Bit c = lit(perm[outer]);
+			for (size_t i = outer + 1; i < nt; i++) c = c & lit(perm[i]);
+			if (r.chance(1, 3)) c.setName("enable_cond");
+			scopes.push_back(std::make_unique<EnableScope>(c));
+		}
+		UInt rv = vh::constU(std::string(w, '0'));
+		if (kind == 0 || kind == 3) {
+			UInt raddr = pinIn(BitWidth(aw)).setName("raddr"); addIn(raddr, aw);
+			UInt waddr = pinIn(BitWidth(aw)).setName("waddr"); addIn(waddr, aw);
+			Bit we = pinIn().setName("we"); addIn(we, 0);
+			Memory<UInt> mem(size_t(1) << aw, BitWidth(w));
+			mem.setPowerOnStateZero();
+			mem.setType(MemType::MEDIUM, 1);
+			perturbStep();
+			UInt rd = mem[raddr];
+			if (kind == 3) { IF (we & !term[0]) mem[waddr] = x; } else { IF (we) mem[waddr] = x; }
+			UInt v = r.chance(1, 2) ? UInt(rd ^ y) : UInt(rd);
+			out = reg(v, rv, {.allowRetimingBackward = true});
+		} else if (kind == 1) {
+			UInt xr = reg(x, rv, {.allowRetimingForward = true});
+			perturbStep();
+			UInt yr = reg(y, rv, {.allowRetimingForward = true});
+			UInt v = xr + yr;
+			v = pipestage(v);
+			out = v ^ 1;
+		} else {
+			UInt xr = reg(x, rv, {.allowRetimingForward = true});
+			UInt v = xr ^ y;
+			auto [nx, en] = negativeReg(v);
+			EnableScope inner(en);
+			out = reg(nx, rv);
+		}
+		while (!scopes.empty()) scopes.pop_back();
+	}
+	auto p = pinOut(out).setName("out"); b.outPins.push_back(p.node()); b.outWidths.push_back(w);
+	return b;
+}
+
 static void markPartitions(hlim::NodeGroup *g, Rng &r, size_t &marked) {
 	for (auto &c : g->getChildren()) {
 		if (c->getGroupType() == hlim::NodeGroupType::ENTITY && r.chance(2, 3)) { c->setPartition(true); c->useComponentInstantiation(true); marked++; }
@@ -183,7 +283,7 @@ static void runVariant(const CaseSpec &s, const fs::path &dir, unsigned shuffles
 	try {
 		DesignScope design;
 		FsmHolder fh;
-		vh::Built b = s.family == "fsm" ? buildFsm(s, fh) : vh::build(s.recipe, s.deco);
+		vh::Built b = s.family == "fsm" ? buildFsm(s, fh) : s.family == "ret" ? buildRet(s) : vh::build(s.recipe, s.deco);
 		size_t marked = 0;
 		if (s.perPartition) { Rng pr(s.partSeed); markPartitions(design.getCircuit().getRootNodeGroup(), pr, marked); }
 		Rng srng(s.stimSeed);
@@ -271,11 +371,14 @@ static int childMain(int argc, char **argv) {
 	}
 	if (layout) junk(lseed * 3 + 1);
 	setMode(m0, lseed);
+	g_perturbSeed = layout ? (lseed * 2 + 1) : 0;
 	runVariant(s, out / "b0", 0);
 	setMode(NORMAL, 0);
 	junk(lseed * 3 + 2);
 	setMode(m1, lseed + 77);
+	g_perturbSeed = (lseed + 0x5bd1e995) * 2 + 1;
 	runVariant(s, out / "b1", 0);
+	g_perturbSeed = 0;
 	setMode(NORMAL, 0);
 	if (layout == 0) {
 		for (unsigned i = 1; i <= 3; i++) runVariant(s, out / ("s" + std::to_string(i)), i);
